@@ -136,7 +136,8 @@ func (c *Chunker) Next() (*proto.LoadChunkRequest, error) {
 		StreamId:    c.streamID,
 		SequenceNum: c.sequenceNum,
 		IsLast:      totalRead < c.chunkSize,
-		Data:        buf.Bytes(),
+		// Copy: buf goes back to the pool on return and is reused by the next call.
+		Data: append([]byte(nil), buf.Bytes()...),
 	}, nil
 }
 
